@@ -151,12 +151,15 @@ def graph_problems(graph, docs, writer):
     return None
 
 
-def export_import(v, docs, subclassing=True, custom=None):
+def export_import(v, docs, subclassing=True, custom=None, maybe_twice=True):
     from odml.tools.rdf_converter import RDFWriter, RDFReader
     uncertainty_text = "F-C01-uncertainty-text" in v.open_findings
     try:
         writer = RDFWriter(list(docs), rdf_subclassing=subclassing, custom_subclasses=custom)
         graph = writer.convert_to_rdf()
+        if maybe_twice and v.bool("export_twice"):
+            # one writer serves several exports (get_rdf_str, then write_file, then str()): each converts again
+            graph = writer.convert_to_rdf()
     except Exception as exc:  # noqa
         v.classify(exc)
         v.note("exception", type(exc).__name__)
@@ -235,7 +238,7 @@ def attributes_ob(v):
     else:
         prop.uncertainty = v.pick("uncertainty", [None, 0, 0.0, 0.5, 2])
         prop.name = v.str("pname", 1, ALPHABET)
-    export_import(v, [doc], subclassing, custom)
+    export_import(v, [doc], subclassing, custom, maybe_twice=False)
 
 
 @obligation("C10", "values", shards=8, budget={"quick": 600, "thorough": 1800},
@@ -267,6 +270,20 @@ def values_ob(v):
         v.assume(False)
     v.assume(len(prop._values) == count)
     v.label("empty" if count == 0 else ("multi" if count >= 2 else "single"))
+    export_import(v, [doc])
+
+
+@obligation("C10", "long_sequence", shards=1, budget={"quick": 300, "thorough": 900},
+            expect=["imported"],
+            bounds="one int Property with 9, 10, 11 or 12 values (positions with one and two digits)")
+def long_sequence_ob(v):
+    """The order of values survives beyond nine members (rdf:_10 sorts before rdf:_2 as text)."""
+    import odml
+    _mute(v)
+    count = v.pick("count", [9, 10, 11, 12])
+    doc = odml.Document()
+    sec = odml.Section(name="s", type="t", parent=doc)
+    odml.Property(name="p", values=[100 + i for i in range(count)], parent=sec)
     export_import(v, [doc])
 
 
